@@ -66,7 +66,8 @@ def op(kind, **fields):
 def add_fp(d=I, ns=NSMASK, length=LEN, rsz=RSZ, ck=st.just(0), file=st.sampled_from([False] * 9 + [True])):
     return op('add_fp', d=d, ns=ns, len=length, sz=SZ, rsz=rsz, usz=st.integers(0, 4), lead=I, salt=I, mode=FMODE, ck=ck, file=file, reuse=REUSE, magic=MAGIC,
               vtwin=st.one_of(st.just(0), st.just(0), st.just(0), st.just(0), st.just(0), st.just(0), st.integers(1, 1000)),
-              xtwin=st.one_of(st.just(0), st.just(0), st.just(0), st.just(0), st.just(0), st.just(0), st.integers(1, 1000)))
+              xtwin=st.one_of(st.just(0), st.just(0), st.just(0), st.just(0), st.just(0), st.just(0), st.integers(1, 1000)),
+              utwin=st.one_of(st.just(0), st.just(0), st.just(0), st.just(0), st.just(0), st.integers(1, 1000)))
 
 
 def add_dir(d=I, ns=NSMASK, rsz=RSZ, sz=SZ):
@@ -477,8 +478,17 @@ def twoboots(cfg=None, reopen_ok=True):
     BF = add_fp(length=st.sampled_from([2748, 5000, 7000, 9000, 2048, 64]), ck=st.sampled_from([1, 0]), ns=st.sampled_from([7, 1, 1, 3]), d=st.just(0), file=st.just(False))
     other = st.lists(add_fp(length=st.sampled_from([3, 5000, 7000, 2048]), d=st.just(0), file=st.just(False)), min_size=0, max_size=2)
 
-    def build(before, bfs, after, bootkw, mid, hide_n, mid2, tail):
+    def build(before, bfs, after, bootkw, mid, hide_n, mid2, tail, samename=None):
         n0 = len(before)
+        if samename is not None:
+            # the second boot file has the first one's names, in a directory of its own (anything that orders or finds boot
+            # files by name has a tie to break); a recomputation may come between the two add_eltorito calls
+            bfs = [bfs[0], dict(samename[0], d=0), dict(bfs[1], d=-1, reuse=2 * n0 + 1)]
+            ops = before + bfs + after
+            ops.append(dict(bootkw[0], b=n0, j=0, media=0, load=None, efi=0))
+            ops += samename[1]
+            ops.append(dict(bootkw[1], b=n0 + 1, j=0, media=0, load=None, efi=0))
+            return ops + mid + tail
         ops = before + bfs + after
         for k in range(len(bfs)):
             ops.append(dict(bootkw[k], b=n0 + k, j=0, media=0, load=None, efi=(k > 0 and bootkw[k].get('efi', 0))))
@@ -491,8 +501,10 @@ def twoboots(cfg=None, reopen_ok=True):
     if reopen_ok:
         mids += [st.just([{'k': 'reopen'}])]
     tail = st.lists(st.one_of(add_fp(length=SMALL_LEN), rm_file, write, add_dir(d=st.just(0)), add_boot), min_size=0, max_size=4)
+    between = st.sampled_from([[], [{'k': 'force'}], [{'k': 'write'}], [{'k': 'query', 'q': 0, 'i': 1}]])
     return program(c, st.builds(build, other, st.lists(BF, min_size=2, max_size=3), other, st.lists(add_boot, min_size=3, max_size=3), st.one_of(*mids),
-                                st.sampled_from([12, 12, 12, 3, 1]), st.one_of(*mids), tail))
+                                st.sampled_from([12, 12, 12, 3, 1]), st.one_of(*mids), tail,
+                                st.one_of(st.none(), st.none(), st.tuples(add_dir(d=st.just(0)), between))))
 
 
 def relocname(cfg=None, reopen_ok=False):
